@@ -507,4 +507,440 @@ theorem isAllowed_ok (count : Nat) (I : Int) (r : Rule) (l : Lim) (e : Ev) (hc :
         fun B => slotOf_out { l1 with b := B } x d hw
       rw [if_neg hx, hL]; rfl
 
+/-! ### the limiters map -/
+
+theorem lookup_upsert_self (k : Bytes) (v : Lim) (m : List (Bytes × Lim)) :
+    (upsert k v m).lookup k = some v := by
+  induction m with
+  | nil => simp [upsert]
+  | cons kv t ih =>
+    obtain ⟨k', v'⟩ := kv
+    unfold upsert
+    by_cases h : k' = k
+    · simp [h]
+    · have : (k == k') = false := by simp; exact fun e => h e.symm
+      simp only [h, ↓reduceIte, List.lookup_cons, this, ih]
+
+theorem lookup_upsert_ne (k k2 : Bytes) (v : Lim) (m : List (Bytes × Lim)) (hne : k2 ≠ k) :
+    (upsert k v m).lookup k2 = m.lookup k2 := by
+  induction m with
+  | nil =>
+    have : (k2 == k) = false := by simp [hne]
+    simp [upsert, List.lookup, this]
+  | cons kv t ih =>
+    obtain ⟨k', v'⟩ := kv
+    unfold upsert
+    by_cases h : k' = k
+    · have : (k2 == k) = false := by simp [hne]
+      have h2 : (k2 == k') = false := by rw [h]; exact this
+      simp only [h, ↓reduceIte, List.lookup_cons, this]
+    · simp only [h, ↓reduceIte, List.lookup_cons, ih]
+
+theorem lookup_erase_self (k : Bytes) (m : List (Bytes × Lim)) : (erase k m).lookup k = none := by
+  induction m with
+  | nil => simp [erase]
+  | cons kv t ih =>
+    obtain ⟨k', v'⟩ := kv
+    unfold erase
+    by_cases h : k' = k
+    · simp only [h, ↓reduceIte, ih]
+    · have : (k == k') = false := by simp; exact fun e => h e.symm
+      simp only [h, ↓reduceIte, List.lookup_cons, this, ih]
+
+theorem lookup_erase_ne (k k2 : Bytes) (m : List (Bytes × Lim)) (hne : k2 ≠ k) :
+    (erase k m).lookup k2 = m.lookup k2 := by
+  induction m with
+  | nil => simp [erase]
+  | cons kv t ih =>
+    obtain ⟨k', v'⟩ := kv
+    unfold erase
+    by_cases h : k' = k
+    · have : (k2 == k) = false := by simp [hne]
+      simp only [h, ↓reduceIte, ih, List.lookup_cons, this]
+    · simp only [h, ↓reduceIte, List.lookup_cons, ih]
+
+/-! ### rules and limiter keys -/
+
+theorem firstMatch_some (rs : List Rule) (n : Nat) (e : Ev) (ir : Nat × Rule)
+    (h : firstMatch rs n e = some ir) : n ≤ ir.1 ∧ rs[ir.1 - n]? = some ir.2 ∧ isMatch ir.2 e = true := by
+  induction rs generalizing n with
+  | nil => simp [firstMatch] at h
+  | cons r rs ih =>
+    unfold firstMatch at h
+    split at h
+    · rename_i hm
+      cases h
+      simp [hm]
+    · obtain ⟨h1, h2, h3⟩ := ih (n + 1) h
+      refine ⟨by omega, ?_, h3⟩
+      have : ir.1 - n = (ir.1 - (n + 1)) + 1 := by omega
+      rw [this, List.getElem?_cons_succ]
+      exact h2
+
+theorem ruleOf_some (cfg : Cfg) (e : Ev) (ir : Nat × Rule) (h : ruleOf cfg e = some ir) :
+    cfg.rules[ir.1]? = some ir.2 := by
+  have := (firstMatch_some cfg.rules 0 e ir h).2.1
+  simpa using this
+
+theorem limKey_inj (i j : Nat) (k1 k2 : Bytes) (hi : i < 256) (hj : j < 256)
+    (h : limKey i k1 = limKey j k2) : i = j ∧ k1 = k2 := by
+  unfold limKey at h
+  simp only [List.cons.injEq, true_and] at h
+  obtain ⟨h1, h2⟩ := h
+  have := congrArg UInt8.toNat h1
+  simp at this
+  exact ⟨by omega, h2⟩
+
+/-! ### time -/
+
+theorem tdiv_eq_bucket (cfg : Cfg) (t : Int) (h : 0 ≤ t) : timeToBucketID cfg.interval t = bucketOf cfg t :=
+  Int.tdiv_eq_ediv_of_nonneg h
+
+theorem bucket_mono (cfg : Cfg) (hI : 0 < cfg.interval) (a b : Int) (h : a ≤ b) :
+    bucketOf cfg a ≤ bucketOf cfg b := Int.ediv_le_ediv hI h
+
+theorem count_le_bucket (cfg : Cfg) (hI : 0 < cfg.interval) (now : Int)
+    (h : (cfg.count : Int) * cfg.interval ≤ now) : (cfg.count : Int) ≤ bucketOf cfg now := by
+  have := Int.ediv_le_ediv hI h
+  rw [Int.mul_ediv_cancel _ (by omega)] at this
+  exact this
+
+theorem tdiv_nonpos (t I : Int) (ht : t < 0) (hI : 0 < I) : Int.tdiv t I ≤ 0 := by
+  have : t = -(-t) := by omega
+  rw [this, Int.neg_tdiv]
+  have := Int.tdiv_nonneg (a := -t) (b := I) (by omega) (by omega)
+  omega
+
+/-- Go's truncating division and the floor division attribute an event to the same bucket as
+    soon as the window starts after bucket 0 -/
+theorem idIn_eq_attr (cfg : Cfg) (e : Ev) (hI : 0 < cfg.interval)
+    (hc : (cfg.count : Int) ≤ bucketOf cfg e.now) :
+    idIn cfg.count (bucketOf cfg e.now) (timeToBucketID cfg.interval e.ts) = attr cfg e := by
+  unfold idIn attr
+  rcases Int.lt_or_le e.ts 0 with hneg | hpos
+  · have h1 := tdiv_nonpos e.ts cfg.interval hneg hI
+    have h2 : bucketOf cfg e.ts < 0 := Int.ediv_neg_of_neg_of_pos hneg hI
+    unfold timeToBucketID
+    have c1 : Int.tdiv e.ts cfg.interval < bucketOf cfg e.now - cfg.count + 1 ∨
+        Int.tdiv e.ts cfg.interval > bucketOf cfg e.now := Or.inl (by omega)
+    have c2 : bucketOf cfg e.ts < bucketOf cfg e.now - cfg.count + 1 ∨
+        bucketOf cfg e.ts > bucketOf cfg e.now := Or.inl (by omega)
+    rw [if_pos c1, if_pos c2]
+  · rw [tdiv_eq_bucket cfg e.ts hpos]
+
+theorem attr_window (cfg : Cfg) (e : Ev) (hc : 0 < cfg.count) :
+    bucketOf cfg e.now - cfg.count + 1 ≤ attr cfg e ∧ attr cfg e ≤ bucketOf cfg e.now := by
+  unfold attr; split <;> omega
+
+/-! ### the simulation -/
+
+theorem stealA_congr (g1 g2 : Nat → Int) (val : Int) (ds : List Int) (i : Nat) (p : PickA)
+    (h : ∀ d, d ≤ i + ds.length → g1 d = g2 d) : stealA g1 val ds i p = stealA g2 val ds i p := by
+  induction ds generalizing i p with
+  | nil => rfl
+  | cons dl ds ih =>
+    simp only [List.length_cons] at h
+    unfold stealA
+    rw [h (i + 1) (by omega)]
+    split
+    · exact ih (i + 1) _ (fun d hd => h d (by omega))
+    · exact ih (i + 1) _ (fun d hd => h d (by omega))
+
+theorem colLim_congr (r : Rule) (g1 g2 : Nat → Int) (e : Ev)
+    (h : ∀ d, d ≤ r.distr.limits.length → g1 d = g2 d) : colLim r g1 e = colLim r g2 e := by
+  unfold colLim distrA
+  rw [h 0 (by omega), stealA_congr g1 g2 _ _ 0 _ (fun d hd => h d (by omega))]
+
+theorem colLim_col_le (r : Rule) (g : Nat → Int) (e : Ev) : (colLim r g e).1 ≤ r.distr.limits.length := by
+  unfold colLim
+  split
+  · exact distrA_col_le _ _ _ _
+  · simp
+
+theorem fresh_slot (l : Lim) (h : Fresh l) (x : Int) (d : Nat) : slotOf l x d = 0 := by
+  unfold slotOf
+  split
+  · exact h.2.2 _ _
+  · rfl
+
+/-- static well-formedness of a configuration (the Prop form of `cfgOK`) -/
+structure CfgWF (cfg : Cfg) : Prop where
+  count : 0 < cfg.count
+  interval : 0 < cfg.interval
+  rules : cfg.rules.length ≤ 256
+  idx : ∀ r ∈ cfg.rules, r.distr.isEnabled = true → IdxOK r.distr
+
+/-- the limiter of key `k` agrees with the counters `c` of the abstract machine -/
+def Agrees (cfg : Cfg) (r : Rule) (l : Lim) (c : Cnt) (k : Bytes) (last : Int) : Prop :=
+  Ready cfg.count l ∧ l.maxID ≤ bucketOf cfg last ∧
+    ∀ x d, l.minID ≤ x → d ≤ r.distr.limits.length → slotOf l x d = c k x d
+
+structure Sim (cfg : Cfg) (s : State) (c : Cnt) (last : Int) (live : List Bytes) (hist : List Ev) : Prop where
+  lims : ∀ k l, s.lims.lookup k = some l →
+    ∃ i r key, k = limKey i key ∧ cfg.rules[i]? = some r ∧ LimOf cfg.count r l ∧
+      (r.limit < 0 ∨ Agrees cfg r l c k last)
+  future : ∀ k x d, bucketOf cfg last < x → c k x d = 0
+  link : ∀ k x d, c k x d ≠ 0 → ∃ e ∈ hist, limKeyOf cfg e = some k ∧ attr cfg e = x
+  live : ∀ k, k ∈ live ↔ ∃ l, s.lims.lookup k = some l
+
+theorem sim_init (cfg : Cfg) (last : Int) : Sim cfg State.init Cnt.zero last [] [] := by
+  refine ⟨?_, ?_, ?_, ?_⟩
+  · intro k l h; simp [State.init] at h
+  · intro k x d _; rfl
+  · intro k x d h; exact absurd rfl h
+  · intro k; simp [State.init]
+
+theorem rule_idx_lt (cfg : Cfg) (hw : CfgWF cfg) (i : Nat) (r : Rule) (h : cfg.rules[i]? = some r) :
+    i < 256 ∧ r ∈ cfg.rules := by
+  have hi : i < cfg.rules.length := by
+    rcases Nat.lt_or_ge i cfg.rules.length with h1 | h1
+    · exact h1
+    · rw [List.getElem?_eq_none h1] at h; cases h
+  refine ⟨by have := hw.rules; omega, ?_⟩
+  rw [List.getElem?_eq_getElem hi] at h
+  cases h
+  exact List.getElem_mem _
+
+theorem cnt_add_apply (c : Cnt) (k : Bytes) (id : Int) (col : Nat) (v : Int) (k2 : Bytes) (x : Int) (d : Nat) :
+    (c.add k id col v) k2 x d = c k2 x d + (if k2 = k ∧ x = id ∧ d = col then v else 0) := by
+  unfold Cnt.add
+  split <;> simp
+
+/-- one event: the model and the abstract machine give the same answer and stay related -/
+theorem sim_event (cfg : Cfg) (hw : CfgWF cfg) (s : State) (c : Cnt) (last : Int) (live : List Bytes)
+    (hist : List Ev) (hs : Sim cfg s c last live hist) (e : Ev) (hlast : last ≤ e.now)
+    (hnow : (cfg.count : Int) * cfg.interval ≤ e.now)
+    (hsafe : ∀ k, limKeyOf cfg e = some k → k ∈ live ∨
+        ∀ e' ∈ hist, limKeyOf cfg e' = some k → attr cfg e' < bucketOf cfg e.now - cfg.count + 1) :
+    ∃ s', doEvent cfg s e = .ok (s', (absStep cfg c e).2) ∧
+      Sim cfg s' (absStep cfg c e).1 e.now
+        (match limKeyOf cfg e with | some k => k :: live | none => live) (e :: hist) := by
+  have hI := hw.interval
+  have hbl : bucketOf cfg last ≤ bucketOf cfg e.now := bucket_mono cfg hI _ _ hlast
+  have hcb : (cfg.count : Int) ≤ bucketOf cfg e.now := count_le_bucket cfg hI _ hnow
+  have hnow0 : 0 ≤ e.now := by
+    have : 0 ≤ (cfg.count : Int) * cfg.interval := Int.mul_nonneg (by omega) (by omega)
+    omega
+  -- facts that do not depend on the rule
+  have hfut : ∀ k x d, bucketOf cfg e.now < x → c k x d = 0 :=
+    fun k x d hx => hs.future k x d (by omega)
+  have hlink : ∀ k x d, c k x d ≠ 0 → ∃ e' ∈ e :: hist, limKeyOf cfg e' = some k ∧ attr cfg e' = x := by
+    intro k x d hne
+    obtain ⟨e', hm, h1, h2⟩ := hs.link k x d hne
+    exact ⟨e', List.mem_cons_of_mem _ hm, h1, h2⟩
+  have hkeep : ∀ k l, s.lims.lookup k = some l →
+      ∃ i r key, k = limKey i key ∧ cfg.rules[i]? = some r ∧ LimOf cfg.count r l ∧
+        (r.limit < 0 ∨ Agrees cfg r l c k e.now) := by
+    intro k l hl
+    obtain ⟨i, r, key, h1, h2, h3, h4⟩ := hs.lims k l hl
+    refine ⟨i, r, key, h1, h2, h3, ?_⟩
+    rcases h4 with h4 | ⟨ha, hb, hc⟩
+    · exact Or.inl h4
+    · exact Or.inr ⟨ha, by omega, hc⟩
+  unfold doEvent absStep limKeyOf ruleOf
+  cases hfm : firstMatch cfg.rules 0 e with
+  | none =>
+    refine ⟨s, rfl, ?_⟩
+    exact ⟨hkeep, hfut, hlink, hs.live⟩
+  | some ir =>
+    have hrule : cfg.rules[ir.1]? = some ir.2 := ruleOf_some cfg e ir hfm
+    obtain ⟨hi256, hmem⟩ := rule_idx_lt cfg hw ir.1 ir.2 hrule
+    simp only
+    generalize hk : limKey ir.1 (throttleKey e) = k
+    -- the limiter `getOrAdd` hands out belongs to the matched rule
+    have hlimof : LimOf cfg.count ir.2 (getOrAdd cfg s k ir.2) := by
+      unfold getOrAdd
+      cases hlk : s.lims.lookup k with
+      | none => exact newLim_limOf cfg ir.2
+      | some l =>
+        obtain ⟨i, r, key, h1, h2, h3, _⟩ := hs.lims k l hlk
+        obtain ⟨hi, _⟩ := rule_idx_lt cfg hw i r h2
+        rw [← hk] at h1
+        obtain ⟨hii, _⟩ := limKey_inj _ _ _ _ hi256 hi h1
+        rw [← hii, hrule] at h2
+        cases h2
+        exact h3
+    have hlive' : ∀ k2, k2 ∈ k :: live ↔ ∃ l, (upsert k (getOrAdd cfg s k ir.2) s.lims).lookup k2 = some l := by
+      intro k2
+      by_cases h : k2 = k
+      · subst h; simp [lookup_upsert_self]
+      · rw [lookup_upsert_ne _ _ _ _ h, ← hs.live]
+        simp [h]
+    by_cases hneg : ir.2.limit < 0
+    · -- unlimited rule: the limiter is created but never touched
+      have hall : isAllowed cfg.count cfg.interval (getOrAdd cfg s k ir.2) e = .ok (getOrAdd cfg s k ir.2, true) := by
+        unfold isAllowed
+        have : (getOrAdd cfg s k ir.2).limit < 0 := by rw [hlimof.limit]; exact hneg
+        simp [this, pure, Except.pure]
+      refine ⟨⟨upsert k (getOrAdd cfg s k ir.2) s.lims⟩, ?_, ?_⟩
+      · simp [hall, bind, Except.bind, pure, Except.pure, hneg]
+      · simp only [hneg, ↓reduceIte]
+        refine ⟨?_, hfut, hlink, hlive'⟩
+        intro k2 l hl
+        by_cases h : k2 = k
+        · subst h
+          rw [lookup_upsert_self] at hl
+          cases hl
+          exact ⟨ir.1, ir.2, throttleKey e, hk.symm, hrule, hlimof, Or.inl hneg⟩
+        · rw [lookup_upsert_ne _ _ _ _ h] at hl
+          exact hkeep k2 l hl
+    · -- a limited rule
+      have h0 : 0 ≤ ir.2.limit := by omega
+      -- the limiter either agrees with the counters or is fresh and the counters of the
+      -- retained window are zero
+      have hpre : (Fresh (getOrAdd cfg s k ir.2) ∧
+            ∀ x d, bucketOf cfg e.now - cfg.count + 1 ≤ x → c k x d = 0) ∨
+          Agrees cfg ir.2 (getOrAdd cfg s k ir.2) c k e.now := by
+        unfold getOrAdd
+        cases hlk : s.lims.lookup k with
+        | none =>
+          left
+          refine ⟨newLim_fresh cfg ir.2, ?_⟩
+          intro x d hx
+          have hnl : ¬ k ∈ live := by
+            rw [hs.live]; intro ⟨l, hl⟩; rw [hlk] at hl; cases hl
+          have hsf := hsafe k (by unfold limKeyOf ruleOf; rw [hfm]; simp only [hk])
+          rcases hsf with hsf | hsf
+          · exact absurd hsf hnl
+          · apply Classical.byContradiction
+            intro hne
+            obtain ⟨e', hm, h1, h2⟩ := hs.link k x d hne
+            have := hsf e' hm h1
+            omega
+        | some l =>
+          right
+          obtain ⟨i, r, key, h1, h2, h3, h4⟩ := hkeep k l hlk
+          obtain ⟨hi, _⟩ := rule_idx_lt cfg hw i r h2
+          rw [← hk] at h1
+          obtain ⟨hii, _⟩ := limKey_inj _ _ _ _ hi256 hi h1
+          rw [← hii, hrule] at h2
+          cases h2
+          rcases h4 with h4 | h4
+          · exact absurd h4 hneg
+          · exact h4
+      generalize hl0 : getOrAdd cfg s k ir.2 = l0 at *
+      have hpre' : Fresh l0 ∨ (Ready cfg.count l0 ∧ l0.maxID ≤ timeToBucketID cfg.interval e.now) := by
+        rw [tdiv_eq_bucket cfg e.now hnow0]
+        rcases hpre with h | h
+        · exact Or.inl h.1
+        · exact Or.inr ⟨h.1, h.2.1⟩
+      -- the slots the event looks at agree with the counters
+      have hagree : ∀ x d, bucketOf cfg e.now - cfg.count + 1 ≤ x → d ≤ ir.2.distr.limits.length →
+          (if x ≤ bucketOf cfg e.now then slotOf l0 x d else 0) = c k x d := by
+        intro x d hx hd
+        rcases hpre with ⟨hf, hz⟩ | ⟨hr, hm, ha⟩
+        · rw [fresh_slot l0 hf, hz x d hx]; simp
+        · have hmin : l0.minID ≤ x := by have := hr.2; omega
+          split
+          · exact ha x d hmin hd
+          · rename_i hgt
+            have := ha x d hmin hd
+            rw [← this]
+            exact (slotOf_out l0 x d (by omega)).symm
+      have hid : idIn cfg.count (bucketOf cfg e.now) (timeToBucketID cfg.interval e.ts) = attr cfg e :=
+        idIn_eq_attr cfg e hI hcb
+      have hwin := attr_window cfg e hw.count
+      have hslotc : ∀ d, d ≤ ir.2.distr.limits.length → slotOf l0 (attr cfg e) d = c k (attr cfg e) d := by
+        intro d hd
+        have := hagree (attr cfg e) d hwin.1 hd
+        rw [if_pos hwin.2] at this
+        exact this
+      have hcl : colLim ir.2 (slotOf l0 (attr cfg e)) e = colLim ir.2 (c k (attr cfg e)) e :=
+        colLim_congr _ _ _ _ hslotc
+      obtain ⟨l2, hall, hlimof2, hmax2, hmin2, hslot2⟩ :=
+        isAllowed_ok cfg.count cfg.interval ir.2 l0 e hw.count hlimof h0 (hw.idx ir.2 hmem) hpre'
+          (bucketOf cfg e.now) (attr cfg e) (colLim ir.2 (c k (attr cfg e)) e)
+          (tdiv_eq_bucket cfg e.now hnow0) hid hcl
+      have hcol := colLim_col_le ir.2 (c k (attr cfg e)) e
+      refine ⟨⟨upsert k l2 s.lims⟩, ?_, ?_⟩
+      · simp only [hall, bind, Except.bind, pure, Except.pure, hneg, ↓reduceIte]
+        rw [cnt_add_apply, hslotc _ hcol]
+        simp
+      · simp only [hneg, ↓reduceIte]
+        refine ⟨?_, ?_, ?_, ?_⟩
+        · intro k2 l hl
+          by_cases h : k2 = k
+          · subst h
+            rw [lookup_upsert_self] at hl
+            cases hl
+            refine ⟨ir.1, ir.2, throttleKey e, hk.symm, hrule, hlimof2, Or.inr ⟨⟨by omega, by omega⟩, by omega, ?_⟩⟩
+            intro x d hx hd
+            rw [hslot2, cnt_add_apply]
+            have hx' : bucketOf cfg e.now - cfg.count + 1 ≤ x := by omega
+            have := hagree x d hx' hd
+            have e1 : (l2.minID ≤ x ∧ x ≤ l2.maxID) ↔ x ≤ bucketOf cfg e.now := by
+              rw [hmax2]; constructor
+              · exact fun h => h.2
+              · exact fun h => ⟨hx, h⟩
+            simp only [e1, this, true_and]
+          · rw [lookup_upsert_ne _ _ _ _ h] at hl
+            obtain ⟨i, r, key, h1, h2, h3, h4⟩ := hkeep k2 l hl
+            refine ⟨i, r, key, h1, h2, h3, ?_⟩
+            rcases h4 with h4 | ⟨ha, hb, hc⟩
+            · exact Or.inl h4
+            · refine Or.inr ⟨ha, hb, ?_⟩
+              intro x d hx hd
+              rw [cnt_add_apply, hc x d hx hd]
+              simp [h]
+        · intro k2 x d hx
+          rw [cnt_add_apply, hfut k2 x d hx]
+          have : ¬ (k2 = k ∧ x = attr cfg e ∧ d = (colLim ir.2 (c k (attr cfg e)) e).1) := by
+            intro h; have := h.2.1; omega
+          simp [this]
+        · intro k2 x d hne
+          rw [cnt_add_apply] at hne
+          by_cases hh : k2 = k ∧ x = attr cfg e ∧ d = (colLim ir.2 (c k (attr cfg e)) e).1
+          · refine ⟨e, List.mem_cons_self, ?_, hh.2.1.symm⟩
+            unfold limKeyOf ruleOf; rw [hfm]; simp only [hk, hh.1]
+          · rw [if_neg hh] at hne
+            exact hlink k2 x d (by simpa using hne)
+        · intro k2
+          by_cases h : k2 = k
+          · subst h; simp [lookup_upsert_self]
+          · rw [lookup_upsert_ne _ _ _ _ h, ← hs.live]
+            simp [h]
+
+theorem sim_expire (cfg : Cfg) (s : State) (c : Cnt) (last : Int) (live : List Bytes) (hist : List Ev)
+    (hs : Sim cfg s c last live hist) (k : Bytes) :
+    Sim cfg ⟨erase k s.lims⟩ c last (live.filter (fun k' => k' != k)) hist := by
+  refine ⟨?_, hs.future, hs.link, ?_⟩
+  · intro k2 l hl
+    by_cases h : k2 = k
+    · subst h; simp only [lookup_erase_self] at hl; cases hl
+    · simp only [lookup_erase_ne _ _ _ h] at hl
+      exact hs.lims k2 l hl
+  · intro k2
+    by_cases h : k2 = k
+    · subst h; simp [lookup_erase_self]
+    · simp only [lookup_erase_ne _ _ _ h, ← hs.live]
+      simp [h]
+
+/-- **refinement**: under the clock and expiry hypotheses the model answers every op sequence
+    exactly like the abstract machine (in particular it never panics) -/
+theorem sim_results (cfg : Cfg) (hw : CfgWF cfg) (ops : List Op) :
+    ∀ (s : State) (c : Cnt) (last : Int) (live : List Bytes) (hist : List Ev),
+      Sim cfg s c last live hist → nowOK cfg last (evs ops) = true → SafeExpiry cfg live hist ops →
+      results cfg s ops = absResults cfg c ops := by
+  induction ops with
+  | nil => intros; rfl
+  | cons op ops ih =>
+    intro s c last live hist hs hn hsafe
+    cases op with
+    | expire k =>
+      unfold results absResults
+      simp only [step, pure, Except.pure]
+      congr 1
+      exact ih _ c last _ hist (sim_expire cfg s c last live hist hs k) (by simpa [evs] using hn)
+        (by simpa [SafeExpiry] using hsafe)
+    | ev e =>
+      simp only [evs, nowOK, Bool.and_eq_true, decide_eq_true_eq] at hn
+      obtain ⟨⟨hlast, hnow⟩, hn'⟩ := hn
+      simp only [SafeExpiry] at hsafe
+      obtain ⟨hsf, hsafe'⟩ := hsafe
+      obtain ⟨s', hdo, hs'⟩ := sim_event cfg hw s c last live hist hs e hlast hnow hsf
+      unfold results absResults
+      simp only [step, hdo, bind, Except.bind, pure, Except.pure]
+      congr 1
+      exact ih s' _ e.now _ _ hs' hn' hsafe'
+
 end FileD.ThrottleLemmas
